@@ -1153,6 +1153,33 @@ def mpf_perturb(x, eps_sign, prec, rnd):
 #                              Radix conversion                              #
 #----------------------------------------------------------------------------#
 
+def _floor_digits(s, dps, bitprec):
+    """Leading decimal digits of the positive finite raw mpf s. Returns
+    (string, exponent) where at least the first dps digits of the string
+    are the digits of s rounded toward zero, and exponent is the decimal
+    exponent of the first digit."""
+    sign, man, exp, bc = s
+    while 1:
+        # Convert to a binary fixed-point number and then convert that
+        # number to a decimal fixed-point number.
+        fixprec = max(bitprec - exp - bc, 0)
+        fixdps = int(fixprec / math.log(10,2) + 0.5)
+        sf = to_fixed(s, fixprec)
+        sd = bin_to_radix(sf, fixprec, 10, fixdps)
+        digits = numeral(sd, base=10, size=dps)
+        exponent = len(digits) - fixdps - 1
+        # No fractional bits were cut off (cutting below the units
+        # place does not change the digits of the integer part)
+        if exp + fixprec >= 0 or not fixprec:
+            return digits, exponent
+        # The mantissa was truncated: the digits are certain only if
+        # they are the same for the next fixed-point number
+        sd2 = bin_to_radix(sf+1, fixprec, 10, fixdps)
+        digits2 = numeral(sd2, base=10, size=dps)
+        if len(digits2) == len(digits) and digits2[:dps] == digits[:dps]:
+            return digits, exponent
+        bitprec = min(2*bitprec, bc)
+
 def to_digits_exp(s, dps):
     """Helper function for representing the floating-point number s as
     a decimal with dps digits. Returns (sign, string, exponent) where
@@ -1175,7 +1202,6 @@ def to_digits_exp(s, dps):
     bitprec = int(dps * math.log(10,2)) + 10
 
     # Cut down to size
-    # TODO: account for precision when doing this
     exp_from_1 = exp + bc
     if abs(exp_from_1) > 3500:
         from .libelefun import mpf_ln2, mpf_ln10
@@ -1187,22 +1213,21 @@ def to_digits_exp(s, dps):
         tmp = mpf_mul(tmp, mpf_ln2(expprec))
         tmp = mpf_div(tmp, mpf_ln10(expprec), expprec)
         b = to_int(tmp)
-        s = mpf_div(s, mpf_pow_int(ften, b, bitprec), bitprec)
-        _sign, man, exp, bc = s
-        exponent = b
+        # Enclose s / 10^b; the digits are accepted when both ends
+        # of the enclosure have the same ones
+        wp = bitprec + 10
+        while 1:
+            p1 = mpf_pow_int(ften, b, wp, round_floor)
+            p2 = mpf_pow_int(ften, b, wp, round_ceiling)
+            digits, exponent = _floor_digits(mpf_div(s, p2, wp, round_floor), dps, bitprec)
+            digits2, exponent2 = _floor_digits(mpf_div(s, p1, wp, round_ceiling), dps, bitprec)
+            if exponent2 == exponent and digits2[:dps] == digits[:dps]:
+                break
+            wp *= 2
+        exponent += b
     else:
-        exponent = 0
+        digits, exponent = _floor_digits(s, dps, bitprec)
 
-    # First, calculate mantissa digits by converting to a binary
-    # fixed-point number and then converting that number to
-    # a decimal fixed-point number.
-    fixprec = max(bitprec - exp - bc, 0)
-    fixdps = int(fixprec / math.log(10,2) + 0.5)
-    sf = to_fixed(s, fixprec)
-    sd = bin_to_radix(sf, fixprec, 10, fixdps)
-    digits = numeral(sd, base=10, size=dps)
-
-    exponent += len(digits) - fixdps - 1
     return sign, digits, exponent
 
 def to_str(s, dps, strip_zeros=True, min_fixed=None, max_fixed=None,
